@@ -158,7 +158,11 @@ def extra_phase(ctx):
     cases = ctx["cases"]
     rng = random.Random(repr((ctx["seed"], "asan")))
     if tier != "thorough" and len(cases) > 2500:
-        cases = rng.sample(cases, 2500)
+        # the two search kernels make up half of the cases: sample those, keep every case of the rarer kernels' DETERMINISTIC
+        # sweeps (e.g. as_dense with every pair count 0..33: each residue of the unrolled scatter) and a sample of the rest
+        det = [c for c in cases if c["k"] == "as_dense" and c.get("vals") == [i + 1 for i in range(len(c.get("idx", [])))]]
+        rest = [c for c in cases if c not in det]
+        cases = det + rng.sample(rest, 2500 - len(det))
     try:
         asan = C.scratch_build(asan=True)
     except C.BuildError as e:
